@@ -328,6 +328,7 @@ def C02(chk):
     generic_mc(chk, "MC_StringClass", "user-class-digits", ["aid", "eaid", "a", "mdot", "l", "kmdot", "hira"],
                {"MaxLen": 4 if q else 5, "FreeSyms": lambda ch: "{%d, %d}" % (ch["eaid"], ch["kmdot"])}, sc_invs, (0,))
     apply_l1(chk, ["reg", "id", "ff", "vir", "greek", "hebrew", "kana", "ld", "rd", "md", "aidx", "eaidx", "own"], nontrivial_key="ctx")
+    l3_run(chk, "allows-runs", driver="runs", per_string=2, kinds=["allows", "ctx"], seed_offset=3)
     l3_run(chk, "allows", strings=600 if q else 8000, per_string=2, kinds=["allows"])
     chk.cov["exhaustive"] = True
     chk.cov["rule"] = ("user-supplied classes: every assignment of the 7 property values to %d free multi-byte symbols x every label of "
@@ -454,6 +455,7 @@ def C08(chk):
     chk.cov["evaluations"] += summary["enforce_calls"]
     chk.cov["distinct_nontrivial"] += summary["changed"]
     chk.sample({"layer": "sweep", "summary": summary})
+    l3_run(chk, "enforce-limits", driver="limits", per_string=2, kinds=["enforce"], profiles=allp, seed_offset=5)
     info = l3_run(chk, "enforce-all", strings=600 if q else 8000, per_string=3, kinds=["enforce"], profiles=allp)
     chk.cov["rule"] = ("model: OutputClean and NoDrift on every enforce behaviour over alphabets of cased / decomposable / compatibility "
                        "characters (strings <= %d, 4 profiles), plus a configuration showing the invariant depends on the closure "
@@ -488,6 +490,7 @@ def C01(chk):
     r = apply_l1(chk, [], full32=not q)
     for pe in r["panics"][:5]:
         chk.violation("panic while classifying / probing code points U+%04X..U+%04X" % (pe.get("lo", 0), pe.get("hi", 0)), {"layer": "L1", "event": pe})
+    l3_run(chk, "all-ops-runs", driver="runs", per_string=3, seed_offset=3)
     l3_run(chk, "all-ops", strings=700 if q else 8000, per_string=5, max_len=12)
     chk.cov["rule"] = ("every string of length <= %s over an 11-symbol alphabet (1/2/3/4-byte characters, ASCII / 2-byte / 3-byte spaces, cased, "
                        "width-mapped, combining mark, ZWJ) and %s random UTF-8 strings (length <= 64, all planes) through EVERY public operation "
